@@ -13,11 +13,11 @@ CHECKS = {
     "C12": ("SeqTrace contract (MoveCtorNoUpstreamTraffic, AssignReleasesOldOnce, MovedFromIsHarmless, MovedFromReleasesNothing) with a move at every position", "9 C12"),
     "C15": ("SeqTrace contract (ReportIffNonZero, ReportAmountIsNet, MovedFromSilent, ReportOnlyAtDestroy)", "9 C15"),
     "C18": ("SeqTrace contract (AboveMaxNeverSucceeds, StackCapacityMovesExactly, pool counter guards)", "9 C18"),
+    "C08": ("SeqTrace contract (TryDeallocFalseForForeign, FalseChangesNothing, TryDeallocTrueForOwn: own, sibling and block-adjacent foreign pointers) and ForwardTrace contract (ReleaseSameLeaf, ReleaseSameShape, ReleasedToServingPool in fallback nests)", "9 C08"),
+    "C09": ("ForwardTrace contract (OneLeafRequestPerRequest, LeafBytesAtLeast, LeafAlignAtLeast, ReleaseSameLeaf, ReleaseSameShape, ReleaseOnce, TrackerSeesEachSuccessOnce) over a catalogue of wrapper compositions on instrumented leaves", "9 C09"),
 }
 
 NOT_YET = {
-    "C08": "check under construction in this session (compose driver + ForwardContract)",
-    "C09": "check under construction in this session (adapters driver + ForwardContract)",
     "C10": "check under construction in this session (containers driver + Propagate model)",
     "C11": "check under construction in this session (joint driver + JointContract)",
     "C13": "check under construction in this session (threads driver + LockContract/Storage model)",
